@@ -763,6 +763,30 @@ pub fn explore(rep: &Report, prop: &str, th: bool) -> Explored {
                     ds.run(m.init(), 0);
                     acc.stats.merge(&ds.stats);
                 }
+                // an early flush at an offset that is not a multiple of the compressor's 4096-byte
+                // refill, then everything up to just past the next 32 KiB boundary with a Sync flush
+                // (a C12 flush point right after the wrap), then Finish
+                let n = straddle[i].data.len() as u32;
+                for &k1 in &[100u32, 1000, 4097] {
+                    for &f1 in &[F_SYNC, F_PARTIAL, F_FULL] {
+                        let mut st = m.init();
+                        let mut path = vec![];
+                        let wrap_end = n.saturating_sub(200);
+                        let mut alive = true;
+                        for a in [Act { k: k1, cap: LARGE, flush: f1 }, Act { k: wrap_end.saturating_sub(k1), cap: LARGE, flush: F_SYNC }] {
+                            path.push(a);
+                            acc.stats.transitions += 1;
+                            if !m.step(&mut st, a, &path) {
+                                alive = false;
+                                break;
+                            }
+                        }
+                        if alive {
+                            m.complete(&mut st, &mut path);
+                        }
+                        acc.stats.executions += 1;
+                    }
+                }
                 acc.runs += 1;
                 for (k, v) in m.cov.lock().unwrap().iter() {
                     *acc.cov.entry(k).or_insert(0) += v;
